@@ -37,8 +37,8 @@ def py_index(ixj, ax, as_array=False):
     raise ValueError(ixj)
 
 
-def call_take(a, c):
-    """perform the read described by the case on the real array"""
+def make_key(c):
+    """python index object(s) described by the case: ('tuple', key) | ('dict', d) | ('axis', ix, axis), kw"""
     sp = c["spelling"]
     axes = c["array"]["axes"]
     idx = c["index"]
@@ -57,10 +57,8 @@ def call_take(a, c):
     if c.get("keepdims"):
         kw["keepdims"] = True
     if idx["form"] == "tuple":
-        # position of each entry after Ellipsis expansion is only needed for label conversion
         nd = len(axes)
         ixs = idx["ix"]
-        nel = sum(1 for x in ixs if x[0] == "el")
         pos = []
         d = 0
         seen = False
@@ -78,6 +76,34 @@ def call_take(a, c):
         key = tuple(conv(x, p) for x, p in zip(ixs, pos))
         if len(key) == 1 and c.get("bare", False):
             key = key[0]
+        return ("tuple", key), kw
+    dims = [x["name"] for x in axes]
+    if idx["form"] == "dict":
+        d = {}
+        for k, x in idx["items"]:
+            if k[0] == "name":
+                dpos = dims.index(k[1]) if k[1] in dims else None
+                d[k[1]] = conv(x, dpos)
+            else:
+                dpos = k[1] if -len(dims) <= k[1] < len(dims) else None
+                d[k[1]] = conv(x, dpos % len(dims) if dpos is not None and dims else None)
+        return ("dict", d), kw
+    if idx["form"] == "axis":
+        k = idx["axis"]
+        if k[0] == "name":
+            dpos = dims.index(k[1]) if k[1] in dims else None
+        else:
+            dpos = k[1] % len(dims) if dims and -len(dims) <= k[1] < len(dims) else None
+        return ("axis", conv(idx["ix"], dpos), k[1]), kw
+    raise ValueError("bad case %r" % (c,))
+
+
+def call_take(a, c):
+    """perform the read described by the case on the real array"""
+    sp = c["spelling"]
+    k, kw = make_key(c)
+    if k[0] == "tuple":
+        key = k[1]
         if sp in ("getitem", "getitem_position_option"):
             return a[key]
         if sp == "take":
@@ -94,16 +120,8 @@ def call_take(a, c):
             return a.take(key, indexing="label", **kw)
         if sp == "take_position":
             return a.take(key, indexing="position", **kw)
-    if idx["form"] == "dict":
-        dims = [x["name"] for x in axes]
-        d = {}
-        for k, x in idx["items"]:
-            if k[0] == "name":
-                dpos = dims.index(k[1]) if k[1] in dims else None
-                d[k[1]] = conv(x, dpos)
-            else:
-                dpos = k[1] if -len(dims) <= k[1] < len(dims) else None
-                d[k[1]] = conv(x, dpos % len(dims) if dpos is not None and dims else None)
+    if k[0] == "dict":
+        d = k[1]
         if sp == "sel":
             return a.sel(**d)
         if sp == "isel":
@@ -113,16 +131,53 @@ def call_take(a, c):
         if sp == "loc":
             return a.loc[d]
         return a.take(d, **kw)
-    if idx["form"] == "axis":
-        k = idx["axis"]
-        dims = [x["name"] for x in axes]
-        if k[0] == "name":
-            dpos = dims.index(k[1]) if k[1] in dims else None
-        else:
-            dpos = k[1] % len(dims) if dims and -len(dims) <= k[1] < len(dims) else None
+    if k[0] == "axis":
         if sp == "take_position":
             kw["indexing"] = "position"
-        return a.take(conv(idx["ix"], dpos), axis=k[1], **kw)
+        return a.take(k[1], axis=k[2], **kw)
+    raise ValueError("bad case %r" % (c,))
+
+
+def call_put(a, c, value):
+    """perform the assignment described by the case; returns the modified array (a itself when in place)"""
+    sp = c["spelling"]
+    k, kw = make_key(c)
+    kw.pop("keepdims", None)
+    if c.get("cast"):
+        kw["cast"] = True
+    inplace = c.get("inplace", True)
+    if k[0] == "tuple":
+        key = k[1]
+        if sp == "getitem" and inplace and not kw:
+            a[key] = value
+            return a
+        if sp == "loc" and inplace and not kw:
+            a.loc[key] = value
+            return a
+        if sp in ("ix", "ix_from_position") and inplace and not kw:
+            a.ix[key] = value
+            return a
+        if sp == "iloc" and inplace and not kw:
+            a.iloc[key] = value
+            return a
+        if sp in ("loc", "take_label"):
+            kw["indexing"] = "label"
+        if sp in ("ix", "iloc", "take_position", "ix_from_position", "getitem_position_option"):
+            kw["indexing"] = "position" if c["mode"] == "position" else "label"
+        r = a.put(key, value, inplace=inplace, **kw)
+        return a if inplace else r
+    if k[0] == "dict":
+        if sp in ("isel", "take_position"):
+            kw["indexing"] = "position"
+        if sp in ("sel", "loc"):
+            kw["indexing"] = "label"
+        r = a.put(k[1], value, inplace=inplace, **kw)
+        return a if inplace else r
+    if k[0] == "axis":
+        if sp == "take_position":
+            kw["indexing"] = "position"
+        r = a.put(k[1], value, axis=k[2], inplace=inplace, **kw)
+        return a if inplace else r
     raise ValueError("bad case %r" % (c,))
 
 
